@@ -840,13 +840,24 @@ func (w *world[E, S]) presentLibWith(t tb, what string, dl *dealing[E, S], h int
 	}
 }
 
-// baseline: every holder's share of every dealing, and the Add-combined shares against the
-// Op-combined vector, are accepted; the combined share is what the summed columns assign.
-func (w *world[E, S]) baseline(t tb) {
+// baseline: every holder's unaltered share is accepted against the vector of dl and - when
+// dealings were combined - the Add-combined shares against the Op-combined vector; the
+// combined share is what the summed columns assign. all=true does it for every dealing of the
+// case (the rapid tests draw dl among the dealings, so every dealing is covered across cases).
+func (w *world[E, S]) baseline(t tb, dl *dealing[E, S], all bool) {
 	t.Helper()
-	for _, dl := range w.targets() {
+	var tgs []*dealing[E, S]
+	if all {
+		tgs = w.targets()
+	} else {
+		tgs = []*dealing[E, S]{dl}
+		if w.comb != nil && dl != w.comb {
+			tgs = append(tgs, w.comb)
+		}
+	}
+	for _, d := range tgs {
 		for h := range w.holderRows {
-			w.presentLibWith(t, "unaltered share against its own vector ("+dl.label+")", dl, h, dl.vv, true, false)
+			w.presentLibWith(t, "unaltered share against its own vector ("+d.label+")", d, h, d.vv, true, false)
 		}
 	}
 	if w.comb != nil {
